@@ -1,5 +1,6 @@
 import RR.Proof.HdlcTable
 import RR.Proof.HdlcRoundtrip
+import RR.Proof.HdlcResync
 
 /-!
 # C13 — HDLC deframer: every valid frame is recovered, nothing invalid is emitted
@@ -97,6 +98,27 @@ theorem c13_frames (cfg : Cfg) (hs : cfg.stripChecksum = true) (ps : List (List 
       (.synced 0 [], ps.map (·.1)) := by
   rw [run_append, run_opening, run_bodies cfg hs ps hps]
   rfl
+
+/-- **Resynchronisation**: from every reachable state — i.e. after ANY preceding
+bits — a flag leaves the deframer right after a flag. -/
+theorem c13_resync (cfg : Cfg) (noise : List Nat) (hn : ∀ b ∈ noise, b ≤ 1) :
+    (run cfg init (noise ++ flag)).1 = .synced 0 [] := by
+  rw [run_append]
+  exact resync cfg _ (by
+    have := wf_run cfg noise hn init (by simp [WF, init])
+    revert this
+    cases (run cfg init noise).1 <;> simp [WF])
+
+/-- **After any preceding bit noise**: whatever bits came first, the frames that
+follow a flag are delivered exactly, in order, each once; everything delivered
+before them was delivered before the flag ended (and, checksum on, passed the
+CRC gate `c13_crc_gate`). -/
+theorem c13_after_noise (cfg : Cfg) (hs : cfg.stripChecksum = true) (noise : List Nat) (hn : ∀ b ∈ noise, b ≤ 1)
+    (ps : List (List Nat × Nat))
+    (hps : ∀ q ∈ ps, (∀ b ∈ q.1, b < 256) ∧ cfg.minSize ≤ q.1.length + 2 ∧ q.1.length + 2 ≤ cfg.maxSize) :
+    run cfg init ((noise ++ flag) ++ ps.flatMap fun q => body q.1 ++ (List.replicate q.2 flag).flatten) =
+      (.synced 0 [], (run cfg init (noise ++ flag)).2 ++ ps.map (·.1)) := by
+  rw [run_append, c13_resync cfg noise hn, run_bodies cfg hs ps hps]
 
 /-- Destuffing inverts stuffing: the stuffed form of any bit string is collected as that string. -/
 theorem c13_destuff (cfg : Cfg) (d : List Nat) (hd : ∀ b ∈ d, b ≤ 1) (hl : d.length ≤ cfg.maxSize * 8 + 7) :
